@@ -23,6 +23,8 @@ ASSUMPTIONS = [
     "clap's precedence 'flag over DIVAN_* variable' is assumed in the model of the runner level and exercised end to end",
     "the per-benchmark option table of harness/hx-select/src/e2e.rs is mirrored by hand in tools/props/c15.py",
     "available parallelism is probed from the binary itself and handed to the model as a parameter",
+    "decimal seconds: std's f64::from_str + Duration::try_from_secs_f64 are assumed correctly rounded, which for plain decimals with "
+    "<= 9 fractional digits below 2^52 ns yields exactly the decimal's nanoseconds (checked against parse_seconds on every run)",
     "skip_ext_time end to end: a 50 ms sleeping generator against a 100 ms budget (6 samples iff external time is skipped, 1-3 "
     "otherwise); sleeps only overshoot, so the classification does not depend on machine speed",
 ]
@@ -456,6 +458,134 @@ def tim_model_input(case, impl):
     return case + " #B " + (LIM_B if tim_module(case) == "lim" else TIM_B)
 
 
+# ---------------------------------------------------------------------------
+# ParsedSeconds (hook parse_seconds) and the resolved runner-level options of a fresh process (hook runner_options)
+# ---------------------------------------------------------------------------
+MALFORMED = ["", "abc", "-1", "1e400", "nan", "inf", "NaN", "-inf", "infinity", ".", "+", "-", "1..2", "1.2.3", "1,5", "\u24231", "1\u2423",
+             "0x10", "1_000", "--1", "+-1", "1s", "ms", "1.5e", "e5", "-0.5", "-0.000000001", "1e999", "٣"]
+
+
+def rand_decimal(rng):
+    """Plain decimal text with at most 9 fractional digits, value below 2^52 ns."""
+    ip = rng.choice(["", "0", "0", "00", str(rng.randrange(10)), str(rng.randrange(1000)), str(rng.randrange(4 * 10**6)), "007"])
+    k = rng.choice([0, 1, 2, 3, 4, 6, 8, 9, 9])
+    fp = "".join(rng.choice("0123456789") for _ in range(k))
+    if rng.random() < 0.25 and k:
+        fp = "0" * rng.randrange(k) + rng.choice(["1", "4", "5", "9", "49", "5", "999"])
+        fp = fp[:9]
+    form = rng.random()
+    if not ip and not fp:
+        ip = "0"
+    t = ip + ("." + fp if fp or form < 0.1 else "")
+    if t.startswith(".") and not fp:
+        t = "0."
+    return ("+" if rng.random() < 0.05 else "") + t
+
+
+def gen_psec(rng, k):
+    if rng.random() < 0.12:
+        return f"d{k} " + rng.choice(MALFORMED)
+    return f"d{k} " + rand_decimal(rng)
+
+
+PSEC_FIXED = ["z0 0.0004", "z1 0.0005", "z2 0.000499999", "z3 0.000000001", "z4 0.000000000", "z5 0.3", "z6 0.1", "z7 0.7", "z8 1.0015",
+              "z9 2.675", "z10 0.0015", "z11 4000000.999999999", "z12 0.999999999", "z13 59.9995", "z14 .0004", "z15 1.", "z16 0",
+              "z17 1000", "z18 0.0025", "z19 0.0035", "z20 3600.000000001"] + [f"y{i} {m}" for i, m in enumerate(MALFORMED)]
+
+R_FLAG = {"sc": "--sample-count", "ss": "--sample-size", "th": "--threads", "mn": "--min-time", "mx": "--max-time",
+          "cb": "--bytes-count", "cc": "--chars-count", "cy": "--cycles-count", "ci": "--items-count"}
+R_ENV = {"sc": "DIVAN_SAMPLE_COUNT", "ss": "DIVAN_SAMPLE_SIZE", "th": "DIVAN_THREADS", "mn": "DIVAN_MIN_TIME", "mx": "DIVAN_MAX_TIME",
+         "se": "DIVAN_SKIP_EXT_TIME", "cb": "DIVAN_BYTES_COUNT", "cc": "DIVAN_CHARS_COUNT", "cy": "DIVAN_CYCLES_COUNT", "ci": "DIVAN_ITEMS_COUNT"}
+R_BUILD = {"sc": "sample_count", "ss": "sample_size", "th": "threads", "mn": "min_time_ns", "mx": "max_time_ns", "se": "skip_ext_time",
+           "cb": "bytes_count", "cc": "chars_count", "cy": "cycles_count", "ci": "items_count"}
+
+
+def gen_ropt(rng, k):
+    src = {"F": [], "E": [], "P": [], "Q": []}
+    for f in ["sc", "ss", "th", "mn", "mx", "se", "cb", "cc", "cy", "ci"]:
+        if rng.random() > 0.45:
+            continue
+        for w in rng.choice(["F", "E", "P", "Q", "F", "E", "P", "FE", "PF", "PE", "QF", "PQ", "PFE", "FEPQ"]):
+            if f in ("sc", "ss"):
+                v = str(rng.choice([0, 1, 2, 100, 2**32 - 1]))
+            elif f == "th":
+                v = "".join(str(rng.choice([0, 1, 2, 3, 8, 64])) + "." for _ in range(rng.choice([1, 1, 2, 3, 4])))
+            elif f in ("mn", "mx"):
+                if w in "FE":
+                    v = "T" + (rng.choice(["0.0004", "0.0005", "0.000499999", "0", "0.3", "2.675", "0.000000001"]) if rng.random() < 0.4
+                               else rand_decimal(rng))
+                    if rng.random() < 0.03:
+                        v = "T" + rng.choice(["abc", "-1", "nan", "1e400"])
+                else:
+                    v = str(rng.choice([0, 1, 400000, 10**9, 5 * 10**9 + 1, 2**62]))
+            elif f == "se":
+                v = str(rng.randrange(2))
+            else:
+                v = str(rng.choice([0, 1, 5, 2**40, 2**64 - 1]))
+            src[w].append(f"{f}={v}")
+    return f"r{k} #R " + " ".join(f"{w}:" + ",".join(src[w]) for w in "FEPQ") + " #V " + rng.choice(["bare", "eq"])
+
+
+ROPT_FIXED = [
+    "f0 #R F: E: P: Q: #V eq",
+    "f1 #R F: E: P:mx=5000000000,mn=7 Q: #V eq",                  # builder limits, nothing on the command line: they stay
+    "f2 #R F:mn=T0.25 E: P:mx=5000000000 Q: #V eq",               # --min-time given, --max-time absent: the builder ceiling stays
+    "f3 #R F:mx=T0.0004 E:mn=T0.000499999 P: Q: #V eq",
+    "f4 #R F:mx=T0.3,mn=T0.1 E:mx=T9,mn=T9 P:mx=1,mn=1 Q: #V eq",
+    "f5 #R F:se=1 E:se=0 P:se=0 Q: #V bare",
+    "f6 #R F:th=3.1.3.0. E:th=7. P:th=9. Q: #V eq",
+    "f7 #R F:cb=1,cc=2,cy=3,ci=4 E:cb=9,cc=9,cy=9,ci=9 P: Q:ci=5 #V eq",
+    "f8 #R F:mx=Tabc E: P: Q: #V eq",
+    "f9 #R F: E:mn=T-1 P: Q: #V eq",
+    "f10 #R F:sc=0,ss=0 E:sc=5 P:ss=6 Q:sc=7 #V eq",
+]
+
+
+def ropt_cmd(case):
+    args, env, builder, tail = [], {"HX_DUMP_RUNNER": "1"}, [], []
+    bare = case.split(" #V ")[1].split()[0] == "bare"
+
+    def val(f, v):
+        if f == "th":
+            return ",".join(x for x in v.split(".") if x)
+        if f in ("mn", "mx") and v.startswith("T"):
+            return E.dec(v[1:])
+        if f == "se":
+            return TF[v]
+        return v
+
+    for f, v in spec_of(case, "F"):
+        if f == "se":
+            if bare and v == "1":
+                tail = ["--skip-ext-time"]
+            else:
+                args.append("--skip-ext-time=" + TF[v])
+        else:
+            # `=` form: a value such as "-1" must not be taken for a flag
+            args.append(R_FLAG[f] + "=" + val(f, v))
+    for f, v in spec_of(case, "E"):
+        env[R_ENV[f]] = val(f, v)
+    for w, pre in (("P", "pre:"), ("Q", "post:")):
+        for f, v in spec_of(case, w):
+            builder.append(pre + R_BUILD[f] + "=" + val(f, v))
+    env["HX_BUILDER"] = ";".join(builder)
+    return args + tail, env
+
+
+def ropt_impl_runner(st, hbin):
+    lines = []
+    for case in st.cases:
+        args, env = ropt_cmd(case)
+        rc, out, err = E.run(hbin, args, env, timeout=30)
+        if rc == 2 and "error:" in err:
+            lines.append("rejected")        # clap refused a value
+        elif rc != 0:
+            lines.append(f"crash rc={rc} {err.strip().splitlines()[-1:]}")
+        else:
+            lines.append(out.strip())
+    return lines
+
+
 def streams(tier, rng):
     n = 2500 if tier == "quick" else 60000
     ov, ov_hist = corpus_lines("C15-ovw"), {}
@@ -484,6 +614,9 @@ def streams(tier, rng):
 
     tm = corpus_lines("C15-tim") + TIM_FIXED + LIM_FIXED + [gen_tim(rng, k) for k in range(4 if tier == "quick" else 120)]
 
+    ps = corpus_lines("C15-psec") + PSEC_FIXED + [gen_psec(rng, k) for k in range(1500 if tier == "quick" else 60000)]
+    ro = corpus_lines("C15-ropt") + ROPT_FIXED + [gen_ropt(rng, k) for k in range(150 if tier == "quick" else 4000)]
+
     def nt_into(c, m):
         xs = c.split()[1:]
         return c.startswith("v") and (len(set(xs)) < len(xs) or xs != sorted(xs, key=int))
@@ -491,6 +624,12 @@ def streams(tier, rng):
     return [
         Stream("overwrite-chains", "ovw", ov, nontrivial=ovw_conflict, hist=ov_hist),
         Stream("into-threads", "into", it, nontrivial=nt_into),
+        Stream("parse-seconds", "psec", ps, nontrivial=lambda c, m: m.startswith("ok ") and not m.endswith(" 0"),
+               describe="ParsedSeconds::from_str (hook parse_seconds) on decimals with up to 9 fractional digits and on malformed text"),
+        Stream("runner-options-fresh-process", "ropt", ro, nontrivial=lambda c, m: any(spec_of(c, w) for w in "FEPQ"),
+               impl_runner=ropt_impl_runner,
+               describe="one fresh hx-select-e2e process per case: builder calls before parsing, flags, DIVAN_* variables, builder calls "
+                        "after parsing -> hook runner_options (all fields) and options_time_limits, compared with runner_level"),
         Stream("e2e-runner-level", "opt", op, nontrivial=lambda c, m: any(spec_of(c, w) for w in "FEPQ"),
                impl_runner=opt_impl_runner(ctx), model_input=opt_model_input, compare=wildcard_eq, hist=op_hist,
                describe="hx-select-e2e --bench '^hx_select_e2e::opt' with the runner level set by flags / DIVAN_* / builder calls; "
